@@ -169,6 +169,7 @@ Proof. unfold res_ok. intros Hn H _. cbn [set_st p_beh p_res]. apply H. exact Hn
 Record rinv (v : variant) (bs : list beh) (s : rstate) : Prop := mkrinv {
   i_idle : r_running s = false -> r_pc s = RIdle;
   i_run : r_pc s <> RIdle -> r_running s = true;
+  i_run2 : r_running s = true -> r_pc s <> RIdle;
   i_noprocs : r_pc s = RIdle \/ r_pc s = RStarted -> r_procs s = [];
   i_snap : spawned_pc (r_pc s) ->
            exists tl, r_runners s = map p_beh (r_procs s) ++ tl /\ (v = Fixed -> tl = []);
@@ -200,7 +201,7 @@ Ltac fin :=
 
 Lemma rinv_step v bs s e s' : rinv v bs s -> step_r v s e = Some s' -> rinv v bs s'.
 Proof.
-  intros I H. destruct I as [Iidle Irun Inop Isnap Icoll Iret Ic1 Ic2 Iinit Ipref Ires].
+  intros I H. destruct I as [Iidle Irun Irun2 Inop Isnap Icoll Iret Ic1 Ic2 Iinit Ipref Ires].
   destruct e; cbn [step_r] in H.
   - (* RAddCheck *)
     inv H. constructor; fin.
